@@ -150,12 +150,15 @@ fn main() {
     }
     return;
   }
+  // delays that must elapse within the run get a long window (the loop ends as soon as the task has run): a loaded machine
+  // may serve a 120 ms timer late, never early
   let w = Duration::from_millis(350);
+  let long = Duration::from_secs(8);
   for (kind, repeat) in [("timer", Kind::Timer), ("interval", Kind::Interval), ("delay", Kind::Delay), ("delay_subscription", Kind::DelaySubscription)] {
-    one(&format!("{kind}-0ms"), Duration::from_millis(0), repeat, w);
-    one(&format!("{kind}-30ms"), Duration::from_millis(30), repeat, w);
-    one(&format!("{kind}-1500us"), Duration::from_micros(1500), repeat, w);
-    one(&format!("{kind}-120ms"), Duration::from_millis(120), repeat, w);
+    one(&format!("{kind}-0ms"), Duration::from_millis(0), repeat, long);
+    one(&format!("{kind}-30ms"), Duration::from_millis(30), repeat, long);
+    one(&format!("{kind}-1500us"), Duration::from_micros(1500), repeat, long);
+    one(&format!("{kind}-120ms"), Duration::from_millis(120), repeat, long);
     one(&format!("{kind}-2s"), Duration::from_secs(2), repeat, w);
     // beyond u32 milliseconds, u32 seconds, u64 microseconds
     one(&format!("{kind}-2^32ms+100ms"), Duration::from_millis((1u64 << 32) + 100), repeat, w);
